@@ -71,12 +71,22 @@ def malformed(line):
     return None
 
 
+def ambiguous(line):
+    """C04 takes the tables as given, which presupposes that one entity has one index (C11, Unique)"""
+    for name, keys in (("exchange", [x for x in line["ex"]]),
+                       ("asset", [(x["ex"], x["a"]) for x in line["as"]]),
+                       ("instrument", [(x["ex"], x["ni"]) for x in line["ins"]])):
+        if len(set(keys)) != len(keys):
+            return "tables", "one %s has two indices" % name
+    return None
+
+
 def validate_trace(ctx, focus, trace_path, label):
     """impl -> spec: TLC decides every logged collection (Trace_Indexing, FOCUS)."""
     lines = ctx.read_trace(trace_path)
     keep, origin = [], []
     for n, line in enumerate(lines, 1):
-        m = malformed(line)
+        m = malformed(line) or (focus == "C04" and ambiguous(line))
         if m:
             if focus == "C11":
                 ctx.violation(m[0], "collection %s: %s [%s, line %d]" % (coll_text(line["defs"]), m[1], label, n),
@@ -110,7 +120,13 @@ def check(ctx, focus, binname, mc_cfg, assumptions):
     ctx.assumptions += assumptions
     tier = QUICK if ctx.quick else THOROUGH
     ctx.build(binname)
-    ctx.tlc_mc(MODULE, mc_cfg, timeout=1500)
+    # the bounded model without -coverage (which slows TLC down several times); vacuity: the small
+    # model of the same specification is checked with -coverage, every action must have been taken
+    ctx.tlc_mc(MODULE, mc_cfg, timeout=1500, coverage=False)
+    small = ctx.tlc_mc(MODULE, "MC_Indexing_small.cfg" if focus == "C04" else "MC_Indexing_C11_small.cfg", timeout=600)
+    want = 8 if focus == "C04" else 2
+    if len([a for a in small["actions"] if a != "Init"]) != want:
+        raise vlib.ToolError("coverage of %s lists actions %s, expected %d" % (MODULE, sorted(small["actions"]), want))
     # (i) every insertion sequence up to the bound, with the spec's tables / maps
     p_a, scn_a = ctx.tlc_gen("Gen_" + MODULE, tier["gen"], "collections.ndjson", timeout=1500,
                              workers=1 if ctx.quick else 10)
